@@ -39,8 +39,8 @@ func init() {
 			"programs on which the reference itself exceeds its step budget are skipped (counted as inconclusive:ref-budget)",
 			"duplicate names in one let binding vector are not generated (unspecified)",
 		},
-		NCases:  func(c *core.Ctx) int { return thorN(c, 3000, 60000) },
-		MustSee: []string{"tr_events", "cond", "for", "calls", "break_or_continue"},
+		NCases:  func(c *core.Ctx) int { return thorN(c, 6000, 80000) },
+		MustSee: []string{"tr_events", "cond", "for", "calls", "break_or_continue", "battery_calls"},
 		Run:     c02Run,
 	})
 }
@@ -50,7 +50,8 @@ func c02Run(c *core.Ctx, i int) *core.Result {
 	text := lang.Plain.Program(prog)
 	res := &core.Result{Input: text, Hash: core.HashOf(text)}
 	ref := &lang.R{MaxSteps: 20000}
-	rv, rerr := ref.Run(prog, lang.NewEnv(nil))
+	genv := lang.NewEnv(nil)
+	rv, rerr := ref.Run(prog, genv)
 	if rerr != nil && rerr.Kind == "budget" {
 		res.Verdict, res.Key = core.Inconclusive, "ref-budget"
 		return res
@@ -85,6 +86,12 @@ func c02Run(c *core.Ctx, i int) *core.Result {
 	budget := int64(400*ref.Steps + 100000)
 	renderings := []string{text, (&lang.Printer{Noise: core.NewRng(c.Seed, "C02n", i, 1)}).Program(prog)}
 	for ri, t := range renderings {
+		if ri == 1 {
+			// the battery below advanced the reference state: recompute it
+			ref = &lang.R{MaxSteps: 20000}
+			genv = lang.NewEnv(nil)
+			rv, rerr = ref.Run(prog, genv)
+		}
 		s := NewSutRun(false)
 		o := s.Eval(t, budget)
 		res.Evals++
@@ -97,6 +104,10 @@ func c02Run(c *core.Ctx, i int) *core.Result {
 				key = "noise:" + key
 			}
 			res.Violate(key, fmt.Sprintf("rendering %d: %s", ri, detail), t)
+		} else if res.Verdict != core.Violated {
+			tr0 := ref.Trace
+			RunBattery(res, g, ref, genv, s, t, []int64{2, 4}, "")
+			ref.Trace = tr0
 		}
 	}
 	return res
